@@ -29,6 +29,13 @@ func (route *Route) validateRecursive() error {
 	if route == nil {
 		return fmt.Errorf("nil route")
 	}
+	// the denoms end up in sdk.NewCoin, which panics on an invalid denom
+	if err := sdk.ValidateDenom(route.DenomIn); err != nil {
+		return fmt.Errorf("invalid denom in: %w", err)
+	}
+	if err := sdk.ValidateDenom(route.DenomOut); err != nil {
+		return fmt.Errorf("invalid denom out: %w", err)
+	}
 	switch strategy := route.Strategy.(type) {
 	case *Route_Pool:
 		if strategy.Pool == nil {
